@@ -34,6 +34,7 @@ R = Result('one case = (route, crash state, read method + arguments); crash stat
            'table patch), hash-before-footer interleavings, and truncations of the finished file; non-trivial = a state that '
            'is a proper prefix (not the complete file) on which the constructor or the call has to decide')
 rng = random.Random(a.seed * 15485863 + 5)
+rng2 = random.Random(a.seed * 32452843 + 11)      # twins / earlier files (a stream of its own: the routes' data stay as they were)
 QUICK = a.tier != 'thorough'
 d = scratch_dir()
 HASH_KEY = 'D40-hash-before-patch'
@@ -47,6 +48,11 @@ class Zeros(bytes):
 
 class Shrink(bytes):
     """marker (empty) of a truncate() / re-open in 'w' mode that SHORTENS the file to the event's offset; atomic"""
+
+
+class Base(bytes):
+    """what the output path held right after the library's FIRST open of it, read back from the disk: whatever mode, opener
+    or flags the library passes, the replay starts from what that open really left of an earlier file (nothing, for 'wb')"""
 
 
 class RecFile:
@@ -108,26 +114,44 @@ class RecFile:
         return False
 
 
+def lib_modules():
+    """the library's modules that use the builtin open (conversion, cropping, ...; not the ones defining their own `open`)"""
+    return [m for n, m in list(sys.modules.items()) if n.startswith('seismic_zfp.') and m is not None and 'open' not in vars(m)]
+
+
 def record(out_path, run):
-    """run the conversion with conversion.open wrapped; returns the file-changing events in program order"""
+    """run a writer with the library's open wrapped (the REAL open is executed with the library's own mode / arguments);
+    returns the file-changing events in program order, preceded by a Base event if the first open left something of what
+    the path held before"""
     log = []
-    count = {'n': 0}
+    count = {'n': 0, 'opens': 0}
     size = {'n': 0}
 
     def rec_open(path, mode='r', *args, **kw):
         f = builtins.open(path, mode, *args, **kw)
-        if os.path.abspath(str(path)) == os.path.abspath(out_path) and any(ch in mode for ch in 'wax+'):
-            count['n'] += 1
-            if 'w' in mode and size['n'] > 0:
-                log.append((count['n'], 0, Shrink()))            # re-opening in 'w' mode empties the file
-                size['n'] = 0
-            return RecFile(f, log, count['n'], size, append='a' in mode)
+        if isinstance(path, (str, bytes, os.PathLike)) and os.path.abspath(os.fsdecode(path)) == os.path.abspath(out_path):
+            count['opens'] += 1
+            if count['opens'] == 1:
+                with builtins.open(out_path, 'rb') as g:
+                    left = g.read()
+                if left:
+                    log.append((0, 0, Base(left)))
+                    size['n'] = len(left)
+            if any(ch in mode for ch in 'wax+'):
+                count['n'] += 1
+                if 'w' in mode and size['n'] > 0 and count['opens'] > 1 and os.path.getsize(out_path) == 0:
+                    log.append((count['n'], 0, Shrink()))            # re-opening in 'w' mode emptied the file
+                    size['n'] = 0
+                return RecFile(f, log, count['n'], size, append='a' in mode)
         return f
-    conv_mod.open = rec_open
+    mods = lib_modules()
+    for m in mods:
+        m.open = rec_open
     try:
         run()
     finally:
-        del conv_mod.open
+        for m in mods:
+            del m.open
     return log
 
 
@@ -161,41 +185,55 @@ class MemFile(io.BytesIO):
 
 # ------------------------------------------------------------------------------------------------ routes
 def routes():
+    """(label, kind, writer(path), twin writer(path), source name): the twin writes OTHER data (samples, line numbers, header
+    values) of the same shape with the same settings -- an earlier file of the same length as the new one"""
     Rts = []
-    c = rnd_cube(rng, (9, 10, 20))
-    Rts.append(('numpy_default', '3d', lambda p, c=c: write_numpy_sgz(p, c, bpv=8)))
-    cz = rnd_cube(rng, (66, 9, 6))
-    Rts.append(('numpy_zslice', '3d', lambda p, c=cz: write_numpy_sgz(p, c, bpv=2, blockshape=(64, 64, 4))))
-    c = rnd_cube(rng, (5, 6, 20))
-    s = os.path.join(d, 'reg.sgy')
-    mk_segy(s, c, 10 + 2 * np.arange(5), 100 + 3 * np.arange(6))
+
+    def add(label, kind, make, data, twin, src):
+        Rts.append((label, kind, lambda p: make(p, data), lambda p: make(p, twin), src))
+
+    def segy(name, cube, ilines, xlines, **kw):
+        path = os.path.join(d, name + '.sgy')
+        mk_segy(path, cube, ilines, xlines, **kw)
+        return path
+    c, ct = rnd_cube(rng, (9, 10, 20)), rnd_cube(rng2, (9, 10, 20))
+    add('numpy_default', '3d', lambda p, x: write_numpy_sgz(p, x, bpv=8), c, ct, 'np_a')
+    cz, czt = rnd_cube(rng, (66, 9, 6)), rnd_cube(rng2, (66, 9, 6))
+    add('numpy_zslice', '3d', lambda p, x: write_numpy_sgz(p, x, bpv=2, blockshape=(64, 64, 4)), cz, czt, 'np_z')
+    c5, c5t = rnd_cube(rng, (5, 6, 20)), rnd_cube(rng2, (5, 6, 20))
+    s = segy('reg', c5, 10 + 2 * np.arange(5), 100 + 3 * np.arange(6))
+    st = segy('reg_t', c5t, 71 + 3 * np.arange(5), 9 + np.arange(6))
     for hd in ('heuristic', 'thorough', 'exhaustive', 'strip'):
-        Rts.append(('segy_' + hd, '3d', lambda p, s=s, hd=hd: write_segy_sgz(s, p, bpv=4, header_detection=hd)))
+        add('segy_' + hd, '3d', lambda p, x, hd=hd: write_segy_sgz(x, p, bpv=4, header_detection=hd), s, st, 'reg')
     present = np.ones((5, 6), dtype=bool); present[0, 0] = present[2, 3] = present[4, 5] = False
-    s2 = os.path.join(d, 'irr.sgy')
-    mk_segy(s2, c, 10 + np.arange(5), 100 + np.arange(6), present=present)
-    Rts.append(('segy_irregular', '3d', lambda p, s=s2: write_segy_sgz(s, p, bpv=4)))
-    c2 = rnd_cube(rng, (21, 30))
-    s3 = os.path.join(d, 'l2d.sgy')
+    s2 = segy('irr', c5, 10 + np.arange(5), 100 + np.arange(6), present=present)
+    s2t = segy('irr_t', c5t, 40 + np.arange(5), 3 + np.arange(6), present=present)
+    add('segy_irregular', '3d', lambda p, x: write_segy_sgz(x, p, bpv=4), s2, s2t, 'irr')
+    c2, c2t = rnd_cube(rng, (21, 30)), rnd_cube(rng2, (21, 30))
+    s3, s3t = os.path.join(d, 'l2d.sgy'), os.path.join(d, 'l2d_t.sgy')
     mk_segy_2d(s3, c2)
-    Rts.append(('2d_heuristic', '2d', lambda p, s=s3: write_segy_sgz(s, p, bpv=4)))
-    Rts.append(('2d_thorough', '2d', lambda p, s=s3: write_segy_sgz(s, p, bpv=4, header_detection='thorough')))
+    mk_segy_2d(s3t, c2t)
+    add('2d_heuristic', '2d', lambda p, x: write_segy_sgz(x, p, bpv=4), s3, s3t, 'l2d')
+    add('2d_thorough', '2d', lambda p, x: write_segy_sgz(x, p, bpv=4, header_detection='thorough'), s3, s3t, 'l2d')
     # every trace header word constant, the last table row (SourceMeasurementUnit, 231) with a two-byte value
-    s4 = os.path.join(d, 'const2d.sgy')
+    s4, s4t = os.path.join(d, 'const2d.sgy'), os.path.join(d, 'const2d_t.sgy')
     mk_segy_2d(s4, c2, hdr=lambda t: {segyio.TraceField.CDP: 7, segyio.TraceField.TRACE_SEQUENCE_FILE: 3,
                                        segyio.TraceField.SourceMeasurementUnit: 4000})
-    Rts.append(('2d_thorough_allconst', '2d', lambda p, s=s4: write_segy_sgz(s, p, bpv=4, header_detection='thorough')))
+    mk_segy_2d(s4t, c2t, hdr=lambda t: {segyio.TraceField.CDP: 9, segyio.TraceField.TRACE_SEQUENCE_FILE: 5,
+                                         segyio.TraceField.SourceMeasurementUnit: 3000})
+    add('2d_thorough_allconst', '2d', lambda p, x: write_segy_sgz(x, p, bpv=4, header_detection='thorough'), s4, s4t, 'const2d')
     if not QUICK:
-        Rts.append(('segy_thorough_iops', '3d', lambda p, s=s: write_segy_sgz(s, p, bpv=4, header_detection='thorough', reduce_iops=True)))
-        cb = rnd_cube(rng, (13, 17, 40))
-        Rts.append(('numpy_default_b', '3d', lambda p, c=cb: write_numpy_sgz(p, c, bpv=4)))
-        Rts.append(('numpy_88', '3d', lambda p, c=c: write_numpy_sgz(p, c, bpv=4, blockshape=(8, 8, -1))))
+        add('segy_thorough_iops', '3d', lambda p, x: write_segy_sgz(x, p, bpv=4, header_detection='thorough', reduce_iops=True), s, st, 'reg')
+        cb, cbt = rnd_cube(rng, (13, 17, 40)), rnd_cube(rng2, (13, 17, 40))
+        add('numpy_default_b', '3d', lambda p, x: write_numpy_sgz(p, x, bpv=4), cb, cbt, 'np_b')
+        add('numpy_88', '3d', lambda p, x: write_numpy_sgz(p, x, bpv=4, blockshape=(8, 8, -1)), c5, c5t, 'reg')
     # reduce_iops=True (the MinimalInlineReader producer; the converter's own default): several inline sets, so that there
     # are crash states with some, but not all, of the compressed blocks on disk
     ci = rnd_cube(rng, (rng.choice((10, 13, 15)), 6, 20))
-    s5 = os.path.join(d, 'iops.sgy')
-    mk_segy(s5, ci, 20 + np.arange(ci.shape[0]), 100 + 2 * np.arange(6))
-    Rts.append(('segy_heuristic_iops', '3d', lambda p, s=s5: write_segy_sgz(s, p, bpv=4, reduce_iops=True)))
+    n5 = ci.shape[0]
+    s5 = segy('iops', ci, 20 + np.arange(n5), 100 + 2 * np.arange(6))
+    s5t = segy('iops_t', rnd_cube(rng2, ci.shape), 300 + 2 * np.arange(n5), 1 + np.arange(6))
+    add('segy_heuristic_iops', '3d', lambda p, x: write_segy_sgz(x, p, bpv=4, reduce_iops=True), s5, s5t, 'iops')
     return Rts
 
 
@@ -320,20 +358,12 @@ def expected_shape(conv, thorough, strip, has_footer):
 
 
 # ------------------------------------------------------------------------------------------------ one route
-def run_route(label, kind, conv):
-    out = os.path.join(d, label + '.sgz')
-    raw = record(out, lambda: conv(out))
-    events = [(h, o, b) for (h, o, b) in raw if o >= 0]
-    final = open(out, 'rb').read()
-    if replay(events) != final:
-        R.violation('corr', {'route': label}, 'replaying the recorded write events does not give the finished file')
-        return
-    # ---- the recorded order against the generated one (Gen/Faults.v segy_write_order / numpy_write_order)
-    sp = SpecFile(out)
-    data_end = 4096 * sp.nhb + 4096 * sp.ndb
+def shape_of(events, data_end):
     shape = []
     for (h, o, b) in events:
-        if isinstance(b, (Zeros, Shrink)):
+        if isinstance(b, Base):
+            shape.append('O')            # bytes of an earlier file that the open left in place
+        elif isinstance(b, (Zeros, Shrink)):
             shape.append('T')            # a truncate: no converter in Gen/Faults.v has one in its write order
         elif h == 1 and o == 0:
             shape.append('H')
@@ -343,18 +373,12 @@ def run_route(label, kind, conv):
             shape.append('F')
         else:
             shape.append(f'P{o}+{len(b)}')
-    comp = [k for k, g in itertools.groupby(shape)]
-    thorough = 'thorough' in label
-    expect = expected_shape('numpy' if label.startswith('numpy') else 'segy', thorough, 'strip' in label, 'F' in comp)
-    if comp != expect:
-        R.violation('corr', {'route': label}, f'write events {comp} differ from the generated order {expect} (Gen/Faults.v)')
-    flushes = [i for i, (h, o, b) in enumerate(raw) if o == -1]
-    n_before_flush = sum(1 for (h, o, b) in raw[:flushes[0]] if o >= 0) if flushes else -1
-    if not flushes or shape[:n_before_flush] != ['H'] + ['B'] * (n_before_flush - 1) or 'B' in shape[n_before_flush:]:
-        R.violation('corr', {'route': label}, 'the data section is not complete and flushed before the patches / footer')
-    R.count('events', len(events))
-    # ---- states
-    states = {}       # bytes -> description (first one wins)
+    return shape
+
+
+def crash_states(events, shape, final):
+    """bytes -> description (first one wins) of every crash state of the recorded history"""
+    states = {}
     rows_final = table_rows(final)
 
     def add(b, desc):
@@ -362,7 +386,9 @@ def run_route(label, kind, conv):
             states[b] = desc
     for e, (h, o, b) in enumerate(events):
         dense = ()
-        if isinstance(b, (Zeros, Shrink)):
+        if isinstance(b, Base):
+            continue                     # (not a write: the state "opened, nothing written yet" is cut 0 of the next event)
+        elif isinstance(b, (Zeros, Shrink)):
             pass
         elif h != 1 and len(b) == 1068:
             before = replay(events, e, 0)
@@ -395,6 +421,62 @@ def run_route(label, kind, conv):
     for L in sorted({x for bnd in bounds for x in (bnd - 1, bnd, bnd + 1)} | set(range(0, len(final), 512)) | {len(final) - 1}):
         if 0 <= L <= len(final):
             add(final[:L], {'history': 'truncation', 'length': L})
+    return states
+
+
+def judge(inp, desc, name, res, wanted, hdr_is_final, hash_is_final, n_state):
+    """the direct oracle on one call: it raised, or returned what the complete file returns (known findings guarded)"""
+    R.count('raise' if res[0] == 'raise' else 'value')
+    if res[0] != 'val' or res == wanted:
+        return
+    if name == 'get_source_data_hash' and not hash_is_final:
+        R.count('known_' + HASH_KEY)
+        if R.distribution['known_' + HASH_KEY] <= 2:
+            R.violation('oracle', inp, 'source-data hash differs from the complete file (zeros / partial) and no error', finding_key=HASH_KEY)
+        if HASH_KEY not in R.known:
+            R.known.append(HASH_KEY)
+    elif (not hdr_is_final) and desc.get('kind') == 'P980+1068' and desc.get('cut', 0) % 12 in (5, 6, 7) \
+            and name in ('open', 'gen_trace_header', 'gen_trace_header_all') and 'output path held' not in inp:
+        R.count('known_' + TORN_KEY)
+        if R.distribution['known_' + TORN_KEY] <= 4:
+            R.violation('oracle', inp, 'table patch torn inside a value field: the constructor accepts the table and a header '
+                                       'constant differs from the complete file: ' + str(res[1])[-120:], finding_key=TORN_KEY)
+        if TORN_KEY not in R.known:
+            R.known.append(TORN_KEY)
+    else:
+        R.count('oracle_violation')
+        n_state[id(desc)] = n_state.get(id(desc), 0) + 1
+        if n_state[id(desc)] <= 3:          # (the list is capped: leave room for the other states)
+            R.violation('oracle', inp, 'the call returned, without raising, something that differs from what the '
+                                       'complete file returns' + diff_text(res[1], wanted[1]))
+
+
+def run_route(label, kind, conv, converter=True):
+    """converter=False: a copy writer (cropper, re-blocker): same crash states and direct oracle, no write-order model"""
+    out = os.path.join(d, label + '.sgz')
+    raw = record(out, lambda: conv(out))
+    events = [(h, o, b) for (h, o, b) in raw if o >= 0]
+    final = open(out, 'rb').read()
+    if replay(events) != final:
+        R.violation('corr', {'route': label}, 'replaying the recorded write events does not give the finished file')
+        return None
+    # ---- the recorded order against the generated one (Gen/Faults.v segy_write_order / numpy_write_order)
+    sp = SpecFile(out)
+    data_end = 4096 * sp.nhb + 4096 * sp.ndb
+    shape = shape_of(events, data_end)
+    comp = [k for k, g in itertools.groupby(shape)]
+    thorough = 'thorough' in label
+    if converter:
+        expect = expected_shape('numpy' if label.startswith('numpy') else 'segy', thorough, 'strip' in label, 'F' in comp)
+        if comp != expect:
+            R.violation('corr', {'route': label}, f'write events {comp} differ from the generated order {expect} (Gen/Faults.v)')
+        flushes = [i for i, (h, o, b) in enumerate(raw) if o == -1]
+        n_before_flush = sum(1 for (h, o, b) in raw[:flushes[0]] if o >= 0) if flushes else -1
+        if not flushes or shape[:n_before_flush] != ['H'] + ['B'] * (n_before_flush - 1) or 'B' in shape[n_before_flush:]:
+            R.violation('corr', {'route': label}, 'the data section is not complete and flushed before the patches / footer')
+    R.count('events', len(events))
+    # ---- states
+    states = crash_states(events, shape, final)
     R.count('states', len(states))
     # ---- complete-file answers and plans
     ops = ops_for(final, kind)
@@ -423,28 +505,7 @@ def run_route(label, kind, conv):
             n_seen += 1
             R.case((label, hashlib.sha1(b).hexdigest()[:12], name, args), nontrivial=(b != final),
                    sample=inp if (n_seen % 997 == 1) else None)
-            R.count('raise' if res[0] == 'raise' else 'value')
-            if res[0] == 'val' and res != want[(name, args)]:
-                if name == 'get_source_data_hash' and not hash_is_final:
-                    R.count('known_' + HASH_KEY)
-                    if R.distribution['known_' + HASH_KEY] <= 2:
-                        R.violation('oracle', inp, 'source-data hash differs from the complete file (zeros / partial) and no error', finding_key=HASH_KEY)
-                    if HASH_KEY not in R.known:
-                        R.known.append(HASH_KEY)
-                elif (not hdr_is_final) and desc.get('kind') == 'P980+1068' and desc.get('cut', 0) % 12 in (5, 6, 7) \
-                        and name in ('open', 'gen_trace_header', 'gen_trace_header_all'):
-                    R.count('known_' + TORN_KEY)
-                    if R.distribution['known_' + TORN_KEY] <= 4:
-                        R.violation('oracle', inp, 'table patch torn inside a value field: the constructor accepts the table and a header '
-                                                   'constant differs from the complete file: ' + str(res[1])[-120:], finding_key=TORN_KEY)
-                    if TORN_KEY not in R.known:
-                        R.known.append(TORN_KEY)
-                else:
-                    R.count('oracle_violation')
-                    n_state[id(desc)] = n_state.get(id(desc), 0) + 1
-                    if n_state[id(desc)] <= 3:          # (the list is capped: leave room for the other states)
-                        R.violation('oracle', inp, 'the call returned, without raising, something that differs from what the '
-                                                   'complete file returns' + diff_text(res[1], want[(name, args)][1]))
+            judge(inp, desc, name, res, want[(name, args)], hdr_is_final, hash_is_final, n_state)
             if hdr_is_final and name != 'get_source_data_hash':
                 model_jobs.append((L, (name, args), res[0] == 'raise', inp))
         if L >= 8192:
@@ -459,7 +520,9 @@ def run_route(label, kind, conv):
                 R.violation('oracle', {'route': label, 'state': desc, 'call': 'preload'}, 'preloaded reader returns different samples')
             R.count('preload')
     # ---- model, part 1: predict_cuts per op over the lengths of the final-header states
-    if not a.no_model:
+    rec = {'label': label, 'kind': kind, 'conv': conv, 'final': final, 'events': events, 'data_end': data_end, 'ops': ops,
+           'want': want, 'digests': {hashlib.sha1(b).digest() for b in states}, 'n_states': len(states)}
+    if converter and not a.no_model:
         by_op = {}
         for L, op, raised, inp in model_jobs:
             by_op.setdefault(op, []).append((L, raised, inp))
@@ -523,7 +586,7 @@ def run_route(label, kind, conv):
                             if md.get(k) != got:
                                 R.violation('corr', dict(inp, key=k), f'header word {k}: model {md.get(k)}, implementation {got}')
                                 break
-    return len(states)
+    return rec
 
 
 import itertools, re
